@@ -9,6 +9,7 @@ package main
 import (
 	"fmt"
 	"strings"
+	"sync"
 	"time"
 
 	"vf/ev"
@@ -78,6 +79,7 @@ func scenarioStamp() int {
 		n = ev.Pick(1500, 25000)
 	}
 	stamped, untouched, back := 0, 0, 0
+	burstStamped := 0
 	for i := 0; i < n; i++ {
 		if h := w.Health(); h != "" {
 			run.Violation("proxy died during the run (belongs to C08; the run cannot continue)", map[string]any{"health": h})
@@ -86,6 +88,9 @@ func scenarioStamp() int {
 		if stampCase(run, w, g, i, prop, &stamped, &untouched, &back) {
 			// ok
 		}
+		if prop == "C07" && i%60 == 59 {
+			burstStamped += stampBurst(run, w, g, i)
+		}
 		if i%300 == 299 {
 			w.Net.Trim()
 		}
@@ -93,6 +98,7 @@ func scenarioStamp() int {
 			break
 		}
 	}
+	run.Observe("requests_stamped_correctly_in_concurrent_bursts", burstStamped)
 	run.Observe("requests_seen_stamped", stamped)
 	run.Observe("requests_seen_untouched", untouched)
 	run.Observe("responses_back_at_true_source", back)
@@ -191,7 +197,7 @@ func stampCase(run *ev.Run, w *stampWorld, g *sip.Gen, i int, prop string, stamp
 		top.Port = fmt.Sprint(sentPort)
 	}
 	entries := []string{top.String()}
-	for k := g.R.Intn(3); k > 0; k-- {
+	for k := g.R.Intn(4); k > 0; k-- {
 		v, _ := g.GenVia(true)
 		entries = append(entries, v.String())
 	}
@@ -205,6 +211,9 @@ func stampCase(run *ev.Run, w *stampWorld, g *sip.Gen, i int, prop string, stamp
 	m := &sip.Msg{Start: method + " " + ruri + " SIP/2.0"}
 	vname := []string{"Via", "v", "VIA"}[g.R.Intn(3)]
 	for _, v := range values {
+		if g.R.Intn(2) == 0 {
+			vname = []string{"Via", "v", "VIA", "V", "via"}[g.R.Intn(5)] // each line its own spelling
+		}
 		m.Headers = append(m.Headers, sip.Header{Name: vname, Value: v})
 	}
 	m.Headers = append(m.Headers,
@@ -497,4 +506,82 @@ func provokeBackendConn(w *stampWorld, path wire.Path, sv *wire.Svc, id string) 
 		return cs[len(cs)-1]
 	}
 	return nil
+}
+
+// stampBurst: several sources send to one UDP listener at the same time, so
+// that datagrams are read while earlier ones are still being parsed; every
+// request must still be stamped with the source of its own packet.
+func stampBurst(run *ev.Run, w *stampWorld, g *sip.Gen, round int) int {
+	var cand []int
+	for s, sv := range w.Svcs {
+		if !sv.NoRecv {
+			cand = append(cand, s)
+		}
+	}
+	svc := cand[g.R.Intn(len(cand))]
+	sv := w.Svcs[svc]
+	dst := fmt.Sprintf("%s:%d", sv.IP, sv.UDP)
+	type sent struct {
+		id   string
+		ip   string
+		port int
+	}
+	var all []sent
+	var mu sync.Mutex
+	var wg sync.WaitGroup
+	nsrc := 2 + g.R.Intn(len(w.eph)-1)
+	per := 3 + g.R.Intn(6)
+	for s := 0; s < nsrc; s++ {
+		wg.Add(1)
+		go func(s int) {
+			defer wg.Done()
+			e := w.eph[s]
+			for k := 0; k < per; k++ {
+				id := fmt.Sprintf("sb%d-%d-%d", round, s, k)
+				m := wire.StdRequest(id, "OPTIONS", fmt.Sprintf("sip:bob@users%d.verif.test", svc), "udp", w.Plan.Decoy(1), decoyPort)
+				wire.SetHeader(m, "Via", fmt.Sprintf("SIP/2.0/UDP %s:%d;branch=z9hG4bKvf%s;rport", w.Plan.Decoy(1), decoyPort, id))
+				if sv.HasDef {
+					wire.SetHeader(m, "To", "<tel:+15550125>")
+				}
+				mu.Lock()
+				all = append(all, sent{id, e.IP(), e.Port()})
+				mu.Unlock()
+				e.Send(dst, m.Bytes(), id)
+			}
+		}(s)
+	}
+	wg.Wait()
+	if !w.Barrier(wire.Path{UA: 0, Svc: svc, Proto: "udp"}) {
+		run.Inconclusive(1)
+		return 0
+	}
+	ok := 0
+	for _, x := range all {
+		var at *wire.Obs
+		for _, o := range w.Net.ForCase(x.id) {
+			if o.Msg != nil && o.Msg.IsRequest() && sv.BackendEndpointNames()[o.Ep] {
+				at = o
+			}
+		}
+		if at == nil {
+			continue // loss under a burst is not C07's business
+		}
+		vs := at.Msg.List("via")
+		if len(vs) < 2 {
+			continue
+		}
+		v, err := sip.ParseVia(vs[1])
+		if err != nil {
+			continue
+		}
+		rc, _ := v.Param("received")
+		rp, _ := v.Param("rport")
+		if rc.V != x.ip || rp.V != fmt.Sprint(x.port) {
+			run.Violation("under concurrent senders a request was stamped with the source of another packet", map[string]any{"service": svc, "true_source": fmt.Sprintf("%s:%d", x.ip, x.port), "stamped_entry": vs[1], "sources_in_burst": nsrc, "datagrams_per_source": per})
+			return ok
+		}
+		ok++
+	}
+	run.Eval(fmt.Sprintf("burst|src%d|per%d", nsrc, per))
+	return ok
 }
